@@ -266,7 +266,10 @@ def extendParsed : Ops â†’ Assign â†’ PartArg â†’ List String â†’ List String â†
       let eqPart : Bool := match partition with
         | .none => part1.isEmpty | .one => false | .cols cs => cs == part1
       let compatible := eqPart || (emptyish && part1.isEmpty)
-      let sameWindowing := impliesWindowed ops == windowed1
+      -- after fix e8da488: the new step is windowed when it uses a window function or names a partition / ordering
+      let newWindowed := impliesWindowed ops || (match partition with
+        | .none => false | .one => true | .cols cs => !cs.isEmpty) || !order.isEmpty
+      let sameWindowing := newWindowed == windowed1
       if compatible && sameWindowing && order == order1 && reverse == reverse1 then
         match tryMergeOps ops1 ops with
         | some newOps => mkExtend src newOps partition order reverse
